@@ -1,0 +1,7 @@
+//go:build !verif
+
+package endorse
+
+import "google.golang.org/protobuf/proto"
+
+func marshalDoc(doc proto.Message) ([]byte, error) { return proto.Marshal(doc) }
